@@ -12,6 +12,11 @@ Request body (after the command word), space separated:
               parent, children…, joined by '.'>` hyperedges joined by ',', nodes joined by ';', then `;` and the
               edges `<parent>-<child>:<number of vertices>` joined by ','
   single <j> … → canonical formal sum denoted by the single-term diagram of term number j
+  fill <tree part> <diagram in the format of `diagram`> (<label>:<dim>)* → the TTNO `from_state_diagram` builds from
+              that diagram: per node (index order) `<i>:<bond dims…x phys>:<cell>,…` joined by ';', a cell
+              `<indices joined by '.'>=<num>/<den>*<gamma>*<label>+…` for every position holding at least one
+              contribution (positions in lexicographic order, contributions in hyperedge order); `raise` where
+              the Python code raises (node without hyperedge, vertex index outside the bond)
 
 Canonical formal sum: summands `<num>/<den>*<sym>:<label of node 0>,…,<label of node n-1>` with equal
 (assignment, symbols) merged and zero coefficients dropped, sorted by (labels, symbols), joined by ' '; `0` if empty.
@@ -68,7 +73,13 @@ def parseTerms (n : Nat) : Nat → List String → Option (List Term)
     | _, _, _ => none
   | _ + 1, _ => none
 
-def parseReq (args : List String) : Option Req :=
+structure TreeReq where
+  n : Nat
+  tree : RTree
+  par : List Int
+  rest : List String
+
+def parseTreeReq (args : List String) : Option TreeReq :=
   match args with
   | [] => none
   | ns :: rest =>
@@ -85,23 +96,37 @@ def parseReq (args : List String) : Option Req :=
           match takeN n rest2 with
           | none => none
           | some (ds, rest3) =>
-            match ps.mapM String.toInt?, ks.mapM parseKids, ds.mapM String.toNat?, rest3 with
-            | some par, some kids, some dims, ts :: rest4 =>
+            match ps.mapM String.toInt?, ks.mapM parseKids, ds.mapM String.toNat? with
+            | some par, some kids, some dims =>
               -- consistency of parents and child lists
               let okKids := (List.range n).all fun i =>
                 let want := (List.range n).filter fun c => par.getD c 0 == (i : Int)
                 let got := kids.getD i []
                 got.length == want.length && want.all (got.contains ·) && got.all (· < n)
               let roots := (List.range n).filter fun c => par.getD c 0 == -1
-              match roots, ts.toNat? with
-              | [r], some t =>
-                if !okKids || t = 0 then none else
-                match buildTree kids.toArray dims.toArray (n + 1) r, parseTerms n t rest4 with
-                | some tree, some terms =>
-                  if tree.ids.length = n then some ⟨n, tree, par, terms⟩ else none
-                | _, _ => none
-              | _, _ => none
-            | _, _, _, _ => none
+              match roots with
+              | [r] =>
+                if !okKids then none else
+                match buildTree kids.toArray dims.toArray (n + 1) r with
+                | some tree => if tree.ids.length = n then some ⟨n, tree, par, rest3⟩ else none
+                | none => none
+              | _ => none
+            | _, _, _ => none
+
+def parseReq (args : List String) : Option Req :=
+  match parseTreeReq args with
+  | none => none
+  | some tr =>
+    match tr.rest with
+    | ts :: rest4 =>
+      match ts.toNat? with
+      | some t =>
+        if t = 0 then none else
+        match parseTerms tr.n t rest4 with
+        | some terms => some ⟨tr.n, tr.tree, tr.par, terms⟩
+        | none => none
+      | none => none
+    | [] => none
 
 /-! ### canonical output -/
 
@@ -161,6 +186,115 @@ def diagramStr (n : Nat) (d : SD) : String :=
     | _ => none
   ";".intercalate nodes ++ ";" ++ ",".intercalate edges
 
+/-! ### `fill`: an arbitrary diagram (as read off the library's StateDiagram) and its filled TTNO -/
+
+structure RawHE where
+  label : String
+  lam : Rat
+  gam : String
+  pos : List Nat
+
+def parseRatTok (t : String) : Option Rat :=
+  match t.splitOn "/" with
+  | [a, b] =>
+    match a.toInt?, b.toNat? with
+    | some x, some y => if y = 0 then none else some (mkRat x y)
+    | _, _ => none
+  | _ => none
+
+def parseRawHE (t : String) : Option RawHE :=
+  match t.splitOn "|" with
+  | [l, q, g, ps] =>
+    match parseRatTok q, (if ps = "" then some [] else (ps.splitOn ".").mapM String.toNat?) with
+    | some r, some pos => some ⟨l, r, g, pos⟩
+    | _, _ => none
+  | _ => none
+
+/-- node part `<i>=<he>,<he>,…` -/
+def parseNodePart (t : String) : Option (Nat × List RawHE) :=
+  match t.splitOn "=" with
+  | [i, body] =>
+    match i.toNat?, (if body = "" then some [] else (body.splitOn ",").mapM parseRawHE) with
+    | some k, some hes => some (k, hes)
+    | _, _ => none
+  | _ => none
+
+/-- edge part `<p>-<c>:<k>` ↦ (c, k) -/
+def parseEdgePart (t : String) : Option (Nat × Nat) :=
+  match t.splitOn ":" with
+  | [pc, k] =>
+    match pc.splitOn "-", k.toNat? with
+    | [_, c], some kk => (c.toNat?).map fun cc => (cc, kk)
+    | _, _ => none
+  | _ => none
+
+mutual
+def buildSD (hes : List (Nat × List RawHE)) (nvs : List (Nat × Nat)) (isRoot : Bool) : RTree → Option SD
+  | .node i _ kids =>
+    match hes.lookup i, buildSDKids hes nvs kids with
+    | some raw, some ks =>
+      let conv := raw.mapM fun (h : RawHE) =>
+        if isRoot then some (⟨h.label, h.lam, h.gam, none, h.pos⟩ : HE)
+        else match h.pos with
+          | p :: rest => some ⟨h.label, h.lam, h.gam, some p, rest⟩
+          | [] => none
+      match conv with
+      | some hs => some (.node i (if isRoot then 0 else (nvs.lookup i).getD 0) hs ks)
+      | none => none
+    | _, _ => none
+def buildSDKids (hes : List (Nat × List RawHE)) (nvs : List (Nat × Nat)) : List RTree → Option (List SD)
+  | [] => some []
+  | k :: ks =>
+    match buildSD hes nvs false k, buildSDKids hes nvs ks with
+    | some a, some as => some (a :: as)
+    | _, _ => none
+end
+
+def parseDiagram (n : Nat) (t : RTree) (s : String) : Option SD :=
+  let parts := s.splitOn ";"
+  if parts.length ≠ n + 1 then none else
+  match (parts.take n).mapM parseNodePart,
+        (let e := parts.getD n ""; if e = "" then some [] else (e.splitOn ",").mapM parseEdgePart) with
+  | some hes, some nvs => buildSD hes nvs true t
+  | _, _ => none
+
+def parseTable : List String → Option (List (String × Nat))
+  | [] => some []
+  | t :: rest =>
+    match t.splitOn ":", parseTable rest with
+    | [l, d], some tab => (d.toNat?).map fun dd => (l, dd) :: tab
+    | _, _ => none
+
+mutual
+def flattenTTNO : TTNO → List (Nat × Option Nat × Nat × Cells × List Nat)
+  | .node i pb ph cells kids => (i, pb, ph, cells, contractBonds kids) :: flattenTTNOKids kids
+def flattenTTNOKids : List TTNO → List (Nat × Option Nat × Nat × Cells × List Nat)
+  | [] => []
+  | k :: ks => flattenTTNO k ++ flattenTTNOKids ks
+end
+
+def itemStr (it : Item) : String := s!"{ratStr it.lam}*{it.gam}*{it.label}"
+
+def nodeTensorStr (x : Nat × Option Nat × Nat × Cells × List Nat) : String :=
+  let (i, pb, ph, cells, kb) := x
+  let shape := (match pb with | some b => [b] | none => []) ++ kb ++ [ph]
+  let pvs : List (Option Nat) := match pb with
+    | some b => (List.range b).map some
+    | none => [none]
+  let cellStrs := pvs.flatMap fun pv => (allTuples kb).filterMap fun kv =>
+    let e := entryAt cells (pv, kv)
+    if e.isEmpty then none else
+      let pos := (match pv with | some p => [p] | none => []) ++ kv
+      some (".".intercalate (pos.map toString) ++ "=" ++ "+".intercalate (e.map itemStr))
+  s!"{i}:{"x".intercalate (shape.map toString)}:{",".intercalate cellStrs}"
+
+def fillStr (n : Nat) (T : TTNO) : String :=
+  let flat := flattenTTNO T
+  ";".intercalate ((List.range n).map fun i =>
+    match flat.find? (fun x => x.1 == i) with
+    | some x => nodeTensorStr x
+    | none => s!"{i}:?")
+
 def handle (args : List String) : String :=
   match args with
   | "denote" :: body =>
@@ -180,6 +314,19 @@ def handle (args : List String) : String :=
       match baseDiagram r.tree r.terms with
       | some d => diagramStr r.n d
       | none => "bad-op"
+    | none => "bad-op"
+  | "fill" :: body =>
+    match parseTreeReq body with
+    | some tr =>
+      match tr.rest with
+      | diag :: table =>
+        match parseDiagram tr.n tr.tree diag, parseTable table with
+        | some d, some tab =>
+          match fillTTNO (fun l => (tab.lookup l).getD 0) d with
+          | some T => fillStr tr.n T
+          | none => "raise"
+        | _, _ => "bad-op"
+      | [] => "bad-op"
     | none => "bad-op"
   | "single" :: j :: body =>
     match j.toNat?, parseReq body with
